@@ -9,6 +9,16 @@
 //	R  entry left the cache   (lru.Cache.OnEvicted, called under the cache mutex)
 //	X  EXECUTE / BATCH at the server (with the answer chosen, before replying)
 //	T  call returned          (logged by the caller after Exec returned)
+//	K  the call's context is done from here on (logged by whoever cancels, BEFORE cancelling; for a
+//	   deadline context when it is armed, i.e. before the call)
+//
+// Caller contexts: every call has one of the modes below (background; cancelled before the call; deadline
+// already passed; cancelled by the scripted server when a PREPARE of one of the call's statements arrives /
+// just before that PREPARE is answered / when the call's own EXECUTE or BATCH arrives; cancelled by the
+// call's own value-binding callback, i.e. after PREPARE and before EXECUTE; a short deadline; cancelled by
+// a timer). The first five cancellation points are reached by event order; the timers only perturb.
+// After the callers of a run have returned, every statement they used is executed once more on its host
+// with a background context (liveness probe: an in-flight entry nobody completes blocks exactly these).
 //
 // The history is one `trace` op; the Lean specification `Obs` (lean/Model/Prepare.lean) judges it.
 // Decisions depend on the ORDER of events only. Delays are schedule perturbation, never part of a verdict;
@@ -17,6 +27,7 @@ package main
 
 import (
 	"context"
+	"errors"
 	"fmt"
 	"os"
 	"regexp"
@@ -35,6 +46,10 @@ import (
 )
 
 const watchdog = 25 * time.Second
+
+// grace: after the watchdog expired and the goroutine dump was taken, the executions get this much longer; a hang is
+// declared only if they are still blocked then (second dump)
+const grace = 6 * time.Second
 
 // ---------- history ----------
 
@@ -99,11 +114,13 @@ type world struct {
 	keyLabel map[string]string // cache key string -> "h<i>.s<j>"
 	capacity int
 	maxLen   int32
-	calls    sync.Map     // call number -> *callSpec
-	pending  int32        // frames received and not answered yet
-	frames   map[int]int  // EXECUTE/BATCH frames per call (history lock)
-	cut      map[int]bool // calls declared not terminating
-	nforget  int          // scripted "forget" / foreign-id answers so far
+	calls    sync.Map          // call number -> *callSpec
+	pending  int32             // frames received and not answered yet
+	frames   map[int]int       // EXECUTE/BATCH frames per call (history lock)
+	cut      map[int]bool      // calls declared not terminating
+	nforget  int               // scripted "forget" / foreign-id answers so far
+	live     map[int]*liveCall // calls with a cancellable context (history lock)
+	stalled  bool              // the watchdog expired but the executions returned right after the goroutine dump
 	// hooks for directed scenarios: called with the history lock held, may override the fate
 	onPrepare func(n *nodeState, stmt int, serial int) (pfate, chan struct{})
 	onExec    func(n *nodeState, call int, known bool) (xfate, chan struct{}, bool)
@@ -118,6 +135,71 @@ type callSpec struct {
 	batch   bool
 	host    int
 	entries []entrySpec
+	ctx     int           // context mode (ctxBg ...)
+	ctxAt   int           // ctxAtBind: the entry whose binding callback cancels
+	ctxD    time.Duration // ctxDlDuring / ctxTimer
+}
+
+// context modes of a call
+const (
+	ctxBg          = iota // context.Background (plus the host pin)
+	ctxPre                // cancelled before the call
+	ctxDlPast             // deadline already passed
+	ctxAtPrepRecv         // cancelled when the server receives a PREPARE of one of the call's statements on its host
+	ctxAtPrepReply        // ... just before the server answers such a PREPARE
+	ctxAtBind             // cancelled by the call's own binding callback (after PREPARE, before EXECUTE)
+	ctxAtExec             // cancelled when the server receives the call's EXECUTE / BATCH
+	ctxDlDuring           // deadline ctxD after the start
+	ctxTimer              // cancelled ctxD after the start
+	nCtxModes
+)
+
+var ctxNames = []string{"bg", "pre", "dlpast", "at-prep-recv", "at-prep-reply", "at-bind", "at-exec", "dl-during", "timer"}
+
+type liveCall struct {
+	spec     *callSpec
+	cancel   context.CancelFunc
+	kLogged  bool
+	returned bool
+}
+
+// cancelLocked logs K:<num> and cancels the call's context (history lock held; K precedes the cancellation).
+func (w *world) cancelLocked(num int) {
+	lc := w.live[num]
+	if lc == nil || lc.kLogged || lc.returned {
+		return
+	}
+	lc.kLogged = true
+	if !w.h.stopped {
+		w.h.evs = append(w.h.evs, hev{text: fmt.Sprintf("K:%d", num)})
+	}
+	lc.cancel()
+}
+
+func (w *world) cancelCall(num int) {
+	w.h.mu.Lock()
+	w.cancelLocked(num)
+	w.h.mu.Unlock()
+}
+
+// cancelOnPrepareLocked cancels the running calls of the given mode that execute statement si on node n.
+func (w *world) cancelOnPrepareLocked(n *nodeState, si int, mode int) {
+	var nums []int
+	for num, lc := range w.live {
+		if lc.spec.ctx != mode || lc.returned || lc.kLogged || lc.spec.host != n.idx {
+			continue
+		}
+		for _, e := range lc.spec.entries {
+			if e.stmt == si {
+				nums = append(nums, num)
+				break
+			}
+		}
+	}
+	sort.Ints(nums)
+	for _, num := range nums {
+		w.cancelLocked(num)
+	}
 }
 
 func keyLabel(host, stmt int) string { return fmt.Sprintf("h%d.s%d", host, stmt) }
@@ -185,6 +267,10 @@ func parseBatchTail(req *memcluster.Request) (ts int64, nvals []int) {
 	return
 }
 
+func trimTrace(op string) string {
+	return strings.TrimPrefix(strings.TrimPrefix(op, "traceU "), "trace ")
+}
+
 func hexIDs(ids [][]byte) string {
 	var p []string
 	for _, id := range ids {
@@ -224,6 +310,7 @@ func (w *world) handle(n *nodeState, req *memcluster.Request) {
 			n.pf[si] = l[1:]
 		}
 		key := keyLabel(n.idx, si)
+		w.cancelOnPrepareLocked(n, si, ctxAtPrepRecv)
 		var op byte
 		var body []byte
 		if f.fail {
@@ -240,7 +327,13 @@ func (w *world) handle(n *nodeState, req *memcluster.Request) {
 		}
 		w.h.mu.Unlock()
 		atomic.AddInt32(&w.pending, 1)
-		after(f.delay, gate, func() { sc.Reply(req.Stream, op, body); atomic.AddInt32(&w.pending, -1) })
+		after(f.delay, gate, func() {
+			w.h.mu.Lock()
+			w.cancelOnPrepareLocked(n, si, ctxAtPrepReply)
+			w.h.mu.Unlock()
+			sc.Reply(req.Stream, op, body)
+			atomic.AddInt32(&w.pending, -1)
+		})
 	case memcluster.OpExecute, memcluster.OpBatch:
 		var ids [][]byte
 		var ts int64
@@ -334,6 +427,9 @@ func (w *world) handle(n *nodeState, req *memcluster.Request) {
 			op, body = memcluster.OpError, memcluster.ErrorBody(memcluster.ErrUnprepared, "unprepared", memcluster.UnpreparedExtra(other))
 		}
 		w.h.evs = append(w.h.evs, hev{text: fmt.Sprintf("X:%d:%s:%s", call, hexIDs(ids), ans)})
+		if lc := w.live[call]; lc != nil && lc.spec.ctx == ctxAtExec {
+			w.cancelLocked(call)
+		}
 		w.h.mu.Unlock()
 		atomic.AddInt32(&w.pending, 1)
 		after(f.delay, gate, func() { sc.Reply(req.Stream, op, body); atomic.AddInt32(&w.pending, -1) })
@@ -404,7 +500,8 @@ type worldCfg struct {
 
 func newWorld(r *vh.Rng, c worldCfg) (*world, error) {
 	w := &world{r: r, h: &hist{}, stmts: c.stmts, stmtIdx: map[string]int{}, byIP: map[string]*nodeState{},
-		stableID: c.stableID, ks: c.ks, keyLabel: map[string]string{}, capacity: c.capacity, frames: map[int]int{}, cut: map[int]bool{}}
+		stableID: c.stableID, ks: c.ks, keyLabel: map[string]string{}, capacity: c.capacity, frames: map[int]int{}, cut: map[int]bool{},
+		live: map[int]*liveCall{}}
 	for i, s := range c.stmts {
 		w.stmtIdx[s.text] = i
 	}
@@ -476,6 +573,9 @@ func classify(err error) string {
 		return "ok"
 	}
 	msg := err.Error()
+	if errors.Is(err, context.Canceled) || errors.Is(err, context.DeadlineExceeded) {
+		return "ctx"
+	}
 	if re, ok := err.(gocql.RequestError); ok {
 		if m := pfRe.FindStringSubmatch(re.Message()); m != nil && re.Code() == memcluster.ErrOverloaded {
 			return "pe/" + m[1]
@@ -518,15 +618,46 @@ func (w *world) doCall(c *callSpec) {
 		kind = "b"
 	}
 	w.h.evs = append(w.h.evs, hev{text: fmt.Sprintf("S:%d:%s:%s", num, kind, strings.Join(es, ","))})
-	w.h.mu.Unlock()
-
 	ctx := context.WithValue(context.Background(), ctxKey{}, w.nodes[c.host].ip)
+	if c.ctx != ctxBg {
+		var cancel context.CancelFunc
+		switch c.ctx {
+		case ctxDlPast:
+			ctx, cancel = context.WithDeadline(ctx, time.Now().Add(-time.Hour))
+		case ctxDlDuring:
+			ctx, cancel = context.WithTimeout(ctx, c.ctxD)
+		default:
+			ctx, cancel = context.WithCancel(ctx)
+		}
+		defer cancel()
+		lc := &liveCall{spec: c, cancel: cancel}
+		w.live[num] = lc
+		switch c.ctx {
+		case ctxPre, ctxDlPast, ctxDlDuring:
+			// done (or armed) before the call begins
+			w.cancelLocked(num)
+		case ctxTimer:
+			go func() {
+				time.Sleep(c.ctxD)
+				w.cancelCall(num)
+			}()
+		}
+	}
+	w.h.mu.Unlock()
 	vals := func(n int) []interface{} {
 		v := make([]interface{}, n)
 		for i := range v {
 			v[i] = i
 		}
 		return v
+	}
+	binder := func(i, n int) func(*gocql.QueryInfo) ([]interface{}, error) {
+		return func(*gocql.QueryInfo) ([]interface{}, error) {
+			if i == c.ctxAt {
+				w.cancelCall(num)
+			}
+			return vals(n), nil
+		}
 	}
 	var err error
 	func() {
@@ -538,16 +669,31 @@ func (w *world) doCall(c *callSpec) {
 		}()
 		if c.batch {
 			b := w.sess.NewBatch(gocql.UnloggedBatch).WithContext(ctx).WithTimestamp(int64(num + 1))
-			for _, e := range c.entries {
-				b.Query(w.stmts[e.stmt].text, vals(e.nvals)...)
+			for i, e := range c.entries {
+				if c.ctx == ctxAtBind {
+					b.Bind(w.stmts[e.stmt].text, binder(i, e.nvals))
+				} else {
+					b.Query(w.stmts[e.stmt].text, vals(e.nvals)...)
+				}
 			}
 			err = w.sess.ExecuteBatch(b)
 		} else {
 			e := c.entries[0]
-			err = w.sess.Query(w.stmts[e.stmt].text, vals(e.nvals)...).WithContext(ctx).WithTimestamp(int64(num + 1)).Exec()
+			if c.ctx == ctxAtBind {
+				err = w.sess.Bind(w.stmts[e.stmt].text, binder(0, e.nvals)).WithContext(ctx).WithTimestamp(int64(num + 1)).Exec()
+			} else {
+				err = w.sess.Query(w.stmts[e.stmt].text, vals(e.nvals)...).WithContext(ctx).WithTimestamp(int64(num + 1)).Exec()
+			}
 		}
 	}()
-	w.h.add(fmt.Sprintf("T:%d:%s", num, classify(err)))
+	w.h.mu.Lock()
+	if lc := w.live[num]; lc != nil {
+		lc.returned = true
+	}
+	if !w.h.stopped {
+		w.h.evs = append(w.h.evs, hev{text: fmt.Sprintf("T:%d:%s", num, classify(err))})
+	}
+	w.h.mu.Unlock()
 	w.sampleLen()
 }
 
@@ -588,6 +734,26 @@ func (w *world) finish(wg *sync.WaitGroup, outdir string, tag string) (op string
 	case <-done:
 	case <-time.After(watchdog):
 		blocked, dump := blockedInGocql()
+		// second look. A stall of the Go runtime itself (a timer that does not fire, a runnable goroutine that is not
+		// scheduled — seen once in ~10^4 runs with spinning goroutines around) ends when the world is stopped for the
+		// dump; an execution that waits for something nobody will ever do stays where it is. Only the latter counts.
+		recovered := func() (string, string) {
+			w.stalled = true
+			os.WriteFile(fmt.Sprintf("%s/stall-%s.txt", outdir, tag), []byte("recovered after the dump; blocked in gocql at the dump: "+blocked+"\n\n"+dump), 0o644)
+			return w.render(""), ""
+		}
+		select {
+		case <-done:
+			return recovered()
+		case <-time.After(grace):
+		}
+		blocked2, dump2 := blockedInGocql()
+		select {
+		case <-done:
+			return recovered()
+		default:
+		}
+		blocked, dump = blocked2, dump2
 		w.h.mu.Lock()
 		returned := map[int]bool{}
 		for _, e := range w.h.evs {
@@ -612,6 +778,11 @@ func (w *world) finish(wg *sync.WaitGroup, outdir string, tag string) (op string
 		}
 		os.WriteFile(fmt.Sprintf("%s/hang-%s.txt", outdir, tag), []byte("blocked in gocql: "+blocked+"\n\n"+dump), 0o644)
 	}
+	return w.render(hung), hung
+}
+
+// render stops the log and renders the trace op.
+func (w *world) render(hung string) string {
 	w.h.mu.Lock()
 	w.h.stopped = true
 	evs := w.h.evs
@@ -653,7 +824,13 @@ func (w *world) finish(wg *sync.WaitGroup, outdir string, tag string) (op string
 	if hung == "" {
 		w.sess.Close()
 	}
-	return "trace " + strings.Join(words, " "), hung
+	// a cache that cannot purge for capacity (unbounded, or far larger than the number of keys of a run): the
+	// specification then also demands a reason for every removal
+	opw := "trace "
+	if w.capacity == 0 || w.capacity >= 1000 {
+		opw = "traceU "
+	}
+	return opw + strings.Join(words, " ")
 }
 
 // ---------- scenarios ----------
@@ -679,8 +856,52 @@ func mkStmts(n int, r *vh.Rng) []stmtDef {
 	return s
 }
 
+// probes: once the callers of the run have returned, every (host, statement) they executed is executed once
+// more with a background context. A correct driver answers each of them (the scripted server answers every
+// frame); an in-flight cache entry that nobody completes blocks exactly these executions for ever.
+func (w *world) probes(wg *sync.WaitGroup) *sync.WaitGroup {
+	all := &sync.WaitGroup{}
+	all.Add(1)
+	go func() {
+		defer all.Done()
+		wg.Wait()
+		type hk struct{ host, stmt int }
+		seen := map[hk]bool{}
+		var keys []hk
+		w.calls.Range(func(_, v interface{}) bool {
+			cs := v.(*callSpec)
+			for _, e := range cs.entries {
+				k := hk{cs.host, e.stmt}
+				if !seen[k] {
+					seen[k] = true
+					keys = append(keys, k)
+				}
+			}
+			return true
+		})
+		sort.Slice(keys, func(i, j int) bool {
+			return keys[i].host < keys[j].host || keys[i].host == keys[j].host && keys[i].stmt < keys[j].stmt
+		})
+		if len(keys) > 12 {
+			keys = keys[:12]
+		}
+		var pw sync.WaitGroup
+		for _, k := range keys {
+			k := k
+			pw.Add(1)
+			go func() {
+				defer pw.Done()
+				w.doCall(&callSpec{host: k.host, entries: []entrySpec{{stmt: k.stmt, nvals: w.stmts[k.stmt].ncols}}})
+			}()
+		}
+		pw.Wait()
+	}()
+	return all
+}
+
 func (rn *runner) emit(w *world, wg *sync.WaitGroup, class string) bool {
 	rn.seq++
+	wg = w.probes(wg)
 	op, hung := w.finish(wg, rn.outdir, fmt.Sprintf("%d", rn.seq))
 	cls := "conc/" + class
 	if hung != "" {
@@ -695,6 +916,11 @@ func (rn *runner) emit(w *world, wg *sync.WaitGroup, class string) bool {
 	rn.out.Dist["conc-events/prepare-failed"] += strings.Count(op, ":err ")
 	rn.out.Dist["conc-events/count-error"] += strings.Count(op, ":ce")
 	rn.out.Dist["conc-events/prepare-error-returned"] += strings.Count(op, ":pe/")
+	if w.stalled {
+		rn.out.Dist["conc/runtime-stall-recovered-after-dump(not-a-hang)"]++
+	}
+	rn.out.Dist["conc-events/K(context-done)"] += strings.Count(op, " K:")
+	rn.out.Dist["conc-events/context-error-returned"] += strings.Count(op, ":ctx")
 	rn.out.Case(fmt.Sprintf("cachelen cap=%d max=%d", w.capacity, atomic.LoadInt32(&w.maxLen)), "accept", "cachelen", true)
 	return hung == ""
 }
@@ -744,6 +970,7 @@ func (rn *runner) random() {
 	}
 	ng := 2 + r.Intn(10)
 	var wg sync.WaitGroup
+	cancelPct := []int{0, 0, 15, 40}[r.Intn(4)]
 	hot := r.Intn(nst) // many goroutines execute the same statement
 	for g := 0; g < ng; g++ {
 		var calls []*callSpec
@@ -772,6 +999,9 @@ func (rn *runner) random() {
 			} else {
 				cs.entries = []entrySpec{pick()}
 			}
+			if r.Intn(100) < cancelPct {
+				rn.randCtx(cs)
+			}
 			calls = append(calls, cs)
 		}
 		wg.Add(1)
@@ -782,7 +1012,166 @@ func (rn *runner) random() {
 			}
 		}()
 	}
-	rn.emit(w, &wg, fmt.Sprintf("random/hosts%d/cap%d", c.nhosts, c.capacity))
+	rn.emit(w, &wg, fmt.Sprintf("random/hosts%d/cap%d/cancel%d", c.nhosts, c.capacity, cancelPct))
+}
+
+// randCtx gives the call a context that becomes done at some point.
+func (rn *runner) randCtx(cs *callSpec) {
+	r := rn.r
+	cs.ctx = 1 + r.Intn(nCtxModes-1)
+	cs.ctxAt = r.Intn(len(cs.entries))
+	cs.ctxD = time.Duration(r.Intn(1200)) * time.Microsecond
+	rn.out.Dist["ctx-mode/"+ctxNames[cs.ctx]]++
+}
+
+// waitHist polls the history until pred holds (schedule shaping only: gives up after 500 ms).
+func (w *world) waitHist(pred func(evs []hev) bool) bool {
+	dl := time.Now().Add(500 * time.Millisecond)
+	for {
+		w.h.mu.Lock()
+		ok := pred(w.h.evs)
+		w.h.mu.Unlock()
+		if ok {
+			return true
+		}
+		if time.Now().After(dl) {
+			return false
+		}
+		time.Sleep(100 * time.Microsecond)
+	}
+}
+
+func hasEv(evs []hev, prefixes ...string) bool {
+	for _, e := range evs {
+		for _, p := range prefixes {
+			if strings.HasPrefix(e.text, p) {
+				return true
+			}
+		}
+	}
+	return false
+}
+
+// cancelled: one caller A whose context becomes done at the scripted point `mode`, as the WINNER of the flight
+// of an uncached statement (A alone looks it up first; the others start once A's PREPARE is at the server or A
+// has returned) or as a WAITER (a background caller wins; its PREPARE is held back until A has joined), or
+// after a LOSS (the statement is cached, the server forgets it; A's frame is answered UNPREPARED, so A's retry
+// looks the statement up with whatever its context is by then). Then 1..3 background callers and a caller with
+// a random context mode execute the same statement; the PREPARE is answered late (held until they have started,
+// bounded). Queries or batches (2 entries: another statement first or last). Probes at the end.
+func (rn *runner) cancelled(mode int, role int, batch bool) {
+	r := rn.r
+	c := worldCfg{nhosts: 1, nconns: 1 + r.Intn(2), capacity: []int{1000, 1000, 2, 1}[r.Intn(4)], stmts: mkStmts(2, r), stableID: r.Bool()}
+	for i := range c.stmts {
+		if c.stmts[i].ncols == 0 {
+			c.stmts[i] = stmtWithCols(i, 1) // batches prepare only entries with values
+		}
+	}
+	w, err := newWorld(r, c)
+	if err != nil {
+		rn.out.Case("trace Z:no-session", "accept", "conc/no-session", true)
+		return
+	}
+	other := r.Intn(2) // position of the other statement in A's batch
+	spec := func(m int) *callSpec {
+		cs := &callSpec{host: 0, ctx: m, ctxD: time.Duration(r.Intn(400)) * time.Microsecond}
+		e0 := entrySpec{stmt: 0, nvals: w.stmts[0].ncols}
+		if batch {
+			e1 := entrySpec{stmt: 1, nvals: w.stmts[1].ncols}
+			cs.batch = true
+			if other == 0 {
+				cs.entries = []entrySpec{e1, e0}
+			} else {
+				cs.entries = []entrySpec{e0, e1}
+			}
+			cs.ctxAt = r.Intn(2)
+		} else {
+			cs.entries = []entrySpec{e0}
+		}
+		return cs
+	}
+	nfollow := 1 + r.Intn(3)
+	started := make(chan struct{})
+	var startedOnce sync.Once
+	failFirst := r.Intn(4) == 0
+	first := true
+	// all random choices are drawn here, by the one goroutine that owns the PRNG
+	var pdelay [16]time.Duration
+	for i := range pdelay {
+		pdelay[i] = time.Duration(r.Intn(300)) * time.Microsecond
+	}
+	xdelay := time.Duration(r.Intn(300)) * time.Microsecond
+	lastSleep := time.Duration(r.Intn(600)) * time.Microsecond
+	w.onPrepare = func(n *nodeState, stmt, serial int) (pfate, chan struct{}) {
+		if stmt != 0 {
+			return pfate{}, nil
+		}
+		f := pfate{delay: pdelay[serial%len(pdelay)]}
+		if first {
+			first = false
+			f.fail = failFirst
+		}
+		// held until the other callers have started (bounded by the gate timeout)
+		return f, started
+	}
+	var wg sync.WaitGroup
+	run := func(cs *callSpec) {
+		wg.Add(1)
+		go func() { defer wg.Done(); w.doCall(cs) }()
+	}
+	a := spec(mode)
+	switch role {
+	case 0: // winner
+		run(a)
+		w.waitHist(func(evs []hev) bool { return hasEv(evs, "P:", "T:0:") })
+	case 1: // waiter
+		run(spec(ctxBg))
+		w.waitHist(func(evs []hev) bool { return hasEv(evs, "P:") })
+		run(a)
+		w.waitHist(func(evs []hev) bool { return hasEv(evs, "S:1:") })
+	case 2: // after a loss
+		w.onPrepare = nil
+		var wg0 sync.WaitGroup
+		wg0.Add(1)
+		go func() { defer wg0.Done(); w.doCall(spec(ctxBg)) }()
+		wg0.Wait()
+		lost := false
+		w.onExec = func(n *nodeState, call int, known bool) (xfate, chan struct{}, bool) {
+			if !lost && call == 1 {
+				lost = true
+				return xfate{kind: 2, delay: xdelay}, nil, true
+			}
+			return xfate{}, nil, false
+		}
+		run(a)
+		w.waitHist(func(evs []hev) bool { return hasEv(evs, "X:1:", "T:1:") })
+	}
+	for i := 0; i < nfollow; i++ {
+		run(spec(ctxBg))
+	}
+	x := spec(ctxBg)
+	rn.randCtx(x)
+	run(x)
+	go func() {
+		// schedule only: the held PREPARE is answered once everybody is on the way
+		w.waitHist(func(evs []hev) bool {
+			n := 0
+			for _, e := range evs {
+				if strings.HasPrefix(e.text, "S:") {
+					n++
+				}
+			}
+			return n >= nfollow+2
+		})
+		time.Sleep(lastSleep)
+		startedOnce.Do(func() { close(started) })
+	}()
+	kind := "query"
+	if batch {
+		kind = "batch"
+	}
+	rn.out.Dist["ctx-mode/"+ctxNames[mode]]++
+	rn.emit(w, &wg, fmt.Sprintf("cancelled/%s/%s/%s", ctxNames[mode], []string{"winner", "waiter", "after-loss"}[role], kind))
 }
 
 // retryUnderContention: one statement whose PREPARE always fails, executed again and again by one caller
@@ -981,32 +1370,59 @@ func (rn *runner) evictionInFlight() {
 	rn.emit(w, &wg, fmt.Sprintf("eviction-in-flight/cap%d", capn))
 }
 
-// sameStatementBurst: n goroutines execute one uncached statement at the same moment.
+// sameStatementBurst: n goroutines execute one uncached statement at the same moment — for each of the world's
+// statements in turn (every burst meets a cold key) — while two goroutines take the cache mutex a few thousand
+// times (bounded work, no spinning on a flag), so that the callers of a burst meet a contended lock and pass
+// through the lookup-or-insert critical section close to each other.
 func (rn *runner) sameStatementBurst() {
 	r := rn.r
-	c := worldCfg{nhosts: 1 + r.Intn(2), nconns: 1 + r.Intn(2), capacity: 1000, stmts: mkStmts(2, r), stableID: r.Bool()}
+	c := worldCfg{nhosts: 1 + r.Intn(2), nconns: 1 + r.Intn(2), capacity: 1000, stmts: mkStmts(12, r), stableID: r.Bool()}
 	w, err := newWorld(r, c)
 	if err != nil {
 		rn.out.Case("trace Z:no-session", "accept", "conc/no-session", true)
 		return
 	}
 	fails := r.Intn(3) == 0
-	w.nodes[0].pf[0] = []pfate{{fail: fails, delay: time.Duration(r.Intn(3000)) * time.Microsecond}}
-	var wg sync.WaitGroup
-	start := make(chan struct{})
-	for g, ng := 0, 4+r.Intn(12); g < ng; g++ {
-		host := 0
-		if g%5 == 4 {
-			host = c.nhosts - 1
-		}
-		wg.Add(1)
-		go func() {
-			defer wg.Done()
-			<-start
-			w.doCall(&callSpec{host: host, entries: []entrySpec{{stmt: 0, nvals: w.stmts[0].ncols}}})
-		}()
+	for j := range w.stmts {
+		w.nodes[0].pf[j] = []pfate{{fail: fails && j == 0, delay: time.Duration(r.Intn(3000)) * time.Microsecond}}
 	}
-	close(start)
+	var sizes []int
+	for range w.stmts {
+		sizes = append(sizes, 4+r.Intn(12))
+	}
+	var wg sync.WaitGroup
+	wg.Add(1)
+	go func() {
+		defer wg.Done()
+		for j := range w.stmts {
+			var bw sync.WaitGroup
+			start := make(chan struct{})
+			for g := 0; g < sizes[j]; g++ {
+				host := 0
+				if g%5 == 4 {
+					host = c.nhosts - 1
+				}
+				bw.Add(1)
+				go func() {
+					defer bw.Done()
+					<-start
+					w.doCall(&callSpec{host: host, entries: []entrySpec{{stmt: j, nvals: w.stmts[j].ncols}}})
+				}()
+			}
+			for g := 0; g < 2; g++ {
+				bw.Add(1)
+				go func() {
+					defer bw.Done()
+					<-start
+					for i := 0; i < 4000; i++ {
+						gocql.VerifC14bLockTouch(w.sess)
+					}
+				}()
+			}
+			close(start)
+			bw.Wait()
+		}
+	}()
 	rn.emit(w, &wg, fmt.Sprintf("burst/fails=%v", fails))
 }
 
@@ -1139,7 +1555,7 @@ func replaySeq(op string) string {
 	if err != nil {
 		return "no-session"
 	}
-	return strings.TrimPrefix(tr, "trace ")
+	return trimTrace(tr)
 }
 
 func (rn *runner) sequential() {
@@ -1204,7 +1620,7 @@ func (rn *runner) sequential() {
 	if hung != "" {
 		rn.nhang++
 	}
-	rn.out.Case(sp.line(), strings.TrimPrefix(op, "trace "), fmt.Sprintf("seq/hosts%d/cap%d", nhosts, sp.capacity), true)
+	rn.out.Case(sp.line(), trimTrace(op), fmt.Sprintf("seq/hosts%d/cap%d", nhosts, sp.capacity), true)
 	// the same history is also judged by the specification
 	rn.out.Case(op, "accept", "seq-trace", true)
 	rn.out.Dist["seq-events/unprepared"] += strings.Count(op, ":un/")
@@ -1224,6 +1640,15 @@ func sessionTier(r *vh.Rng, out *vh.Out, outdir string, mult int) {
 		steps = append(steps, func() { rn.lostStatement(2+rn.r.Intn(3), true, false) })
 		steps = append(steps, func() { rn.lostStatement(2+rn.r.Intn(3), false, rn.r.Bool()) })
 		steps = append(steps, func() { rn.lostStatement(2, true, true) })
+	}
+	for rep := 0; rep < mult; rep++ {
+		for mode := 1; mode < nCtxModes; mode++ {
+			for role := 0; role < 3; role++ {
+				mode, role := mode, role
+				steps = append(steps, func() { rn.cancelled(mode, role, false) })
+				steps = append(steps, func() { rn.cancelled(mode, role, true) })
+			}
+		}
 	}
 	for i := 0; i < 6*mult; i++ {
 		steps = append(steps, func() { rn.retryUnderContention(60) })
